@@ -162,6 +162,15 @@ def run(chk):
             for k_ in ('nu', 'th'):
                 v = gen.fields['param_n_samples'][k_]
                 if isinstance(v, Sym):
+                    # a float-step `arange(lo, hi, (hi - lo) / n)` does not guarantee its number of points (arange(0, 1, 1/49) has 50)
+                    from ..genenv import walk_sym
+                    ar = []
+                    walk_sym(v, lambda s_: ar.append(s_) if (s_.op == 'arange' and len(s_.args) == 3) else None)
+                    for nd in ar:
+                        a_, b_, st_ = (lift(x) for x in nd.args)
+                        if a_ == lift(K(f'{k_}_lo')) and b_ == lift(K(f'{k_}_hi')) and not st_.is_const():
+                            raise Violation(f"grid samples[{k_}]", f"{nd}: the number of points of arange with a float step is not "
+                                            f"guaranteed (e.g. arange(0, 1, 1/49) has 50 points)", f"exactly {m} samples of the key's range")
                     raise Inconclusive(f"grid samples of {k_} are not concrete-count vectors: {str(v)[:120]}")
                 v = to_at(v)
                 lo, hi = lift(K(f'{k_}_lo')), lift(K(f'{k_}_hi'))
